@@ -1083,7 +1083,14 @@ func virtualReturns(fn *ssa.Function) []vReturn {
 		var ph *ssa.Phi
 		if depth < 4 && len(out) < 256 {
 			for _, r := range vr.Results {
-				if x, ok := r.(*ssa.Phi); ok && (x.Block() == vr.Block || x.Block().Dominates(vr.Ret.Block())) {
+				x, ok := r.(*ssa.Phi)
+				if !ok {
+					// !(a || b) is returned as the negation of a phi
+					if u, isNot := r.(*ssa.UnOp); isNot && u.Op == token.NOT {
+						x, ok = u.X.(*ssa.Phi)
+					}
+				}
+				if ok && (x.Block() == vr.Block || x.Block().Dominates(vr.Ret.Block())) {
 					ph = x
 					break
 				}
@@ -1112,6 +1119,11 @@ func virtualReturns(fn *ssa.Function) []vReturn {
 				res[i] = r
 				if x, ok := r.(*ssa.Phi); ok && x.Block() == pb && k < len(x.Edges) {
 					res[i] = x.Edges[k]
+				}
+				if u, isNot := r.(*ssa.UnOp); isNot && u.Op == token.NOT {
+					if x, ok := u.X.(*ssa.Phi); ok && x.Block() == pb && k < len(x.Edges) {
+						res[i] = negatedValue(x.Edges[k])
+					}
 				}
 			}
 			f := map[condFact]bool{}
@@ -1143,6 +1155,35 @@ func virtualReturns(fn *ssa.Function) []vReturn {
 		expand(vReturn{r, append([]ssa.Value{}, r.Results...), f, r.Block()}, 0)
 	}
 	return out
+}
+
+// negatedValue: a value that stands for !v (a constant, the complementary comparison, the operand of a negation, or
+// a synthetic negation).
+var synthNots = map[ssa.Value]*ssa.UnOp{}
+
+func negatedValue(v ssa.Value) ssa.Value {
+	if b, isC := constBool(v); isC {
+		return ssa.NewConst(constant.MakeBool(!b), types.Typ[types.Bool])
+	}
+	switch x := v.(type) {
+	case *ssa.UnOp:
+		if x.Op == token.NOT {
+			return x.X
+		}
+	case *ssa.BinOp:
+		if c, ok := complementOp[x.Op]; ok {
+			// not for floating point: !(a < b) is not a >= b when one is NaN
+			if bt, isBasic := x.X.Type().Underlying().(*types.Basic); !isBasic || bt.Info()&types.IsFloat == 0 {
+				return synthBinOp(c, x.X, x.Y)
+			}
+		}
+	}
+	if u, ok := synthNots[v]; ok {
+		return u
+	}
+	u := &ssa.UnOp{Op: token.NOT, X: v}
+	synthNots[v] = u
+	return u
 }
 
 // ---------------------------------------------------------------------------
